@@ -121,7 +121,7 @@ class World:
         self.reset()
 
     def reset(self, pid=7, state="alive", site=None, err=None, records=None, notty=False, faults=None, rowalt=None,
-              rowset=None):
+              rowset=None, probe_err=None):
         """faults: {site: [(count or None, err or None), ...]} -- the first `count` invocations of that native call
         end with err (None = succeed), then the next segment applies; count None = all remaining invocations.
         site/err = the single-fault shorthand {site: [(None, err)]}."""
@@ -130,6 +130,8 @@ class World:
         if site is not None and err is not None:
             self.faults[site] = [(None, err)]
         self.ncalls = {}
+        self.probe_err = probe_err            # every follow-up probe of the error path (is_zombie / pid_exists / pids) fails with it
+        self.probe_raised = []
         self.rowalt = dict(rowalt or {})
         self.rowset = dict(rowset or {})      # {fn: {slot: value}} explicit values in a row-native's row
         self.records = records or {}
@@ -141,6 +143,13 @@ class World:
 
     def listed(self, pid=None):
         return self.state != "gone"
+
+    def probe_fault(self, plat):
+        """Called by every OS access made inside a ladder probe: raises the probe error if one is planned."""
+        if self.suspend and self.probe_err is not None:
+            e = make_error(plat, self.probe_err)
+            self.probe_raised.append(e)
+            raise e
 
     def fault_for(self, names):
         """err (or None) for this invocation of the native call known under `names` (most specific first)."""
@@ -220,6 +229,7 @@ class Layer:
     def native(self, fname, fn, a, kw):
         w = self.world
         if w.suspend:
+            w.probe_fault(self.plat)
             if w.state == "gone" and fname.startswith("proc_"):
                 raise OSError(_errno.ESRCH, "No such process")
         else:
@@ -387,6 +397,8 @@ class Layer:
 
             def exists(self, p):
                 if L.plat == "aix" and isinstance(p, str) and p.endswith("/psinfo"):
+                    if L.world.suspend and L.world.probe_err is not None:
+                        return False                 # os.path.exists(): a failing stat() reads as "not there"
                     return L.world.listed()          # _psaix.pid_exists
                 return True
 
@@ -401,6 +413,7 @@ class Layer:
 
             def listdir(self, p=".", *a):
                 if p in ("/proc", b"/proc"):             # pids() of _pssunos / _psaix
+                    L.world.probe_fault(L.plat)
                     ls = ["1"] + ([str(L.world.pid)] if L.world.listed() else []) + ["self", "net"]
                     return [x.encode() for x in ls] if isinstance(p, bytes) else ls
                 return L.native("os.listdir", lambda *x: [str(BASE["os.listdir"])], (p,), {})
@@ -413,6 +426,7 @@ class Layer:
                 return L.native("os.waitpid", real, (pid, flags), {})
 
             def kill(self, pid, sig):                    # only reached from the private copy of _psposix
+                L.world.probe_fault(L.plat)
                 if pid == L.world.pid and not L.world.listed():
                     raise ProcessLookupError(_errno.ESRCH, "No such process")
                 if pid != L.world.pid and pid != 1:
@@ -530,10 +544,10 @@ class Layer:
                 "ionice_set": (2, 0), "send_signal": (signal.SIGTERM,), "wait": (0,)}.get(meth, ())
 
     def run(self, meth, pid=7, state="alive", site=None, err=None, records=None, notty=False, args=None, faults=None,
-            rowalt=None, rowset=None):
+            rowalt=None, rowset=None, probe_err=None):
         """Returns (kind, payload): ('val', value) | ('exc', exception object); world holds calls/fired."""
         mod = self.mod
-        self.world.reset(pid, state, site, err, records, notty, faults, rowalt, rowset)
+        self.world.reset(pid, state, site, err, records, notty, faults, rowalt, rowset, probe_err)
         if hasattr(mod, "_pid_0_exists"):
             mod._pid_0_exists.cache_clear()
         if hasattr(mod, "convert_dos_path"):
@@ -579,6 +593,8 @@ def classify(layer, kind, payload, need_fired=True):
         return T(n, e.pid if isinstance(e.pid, int) else -1, B(nm) if isinstance(nm, str) else None)
     if any(e is x for x in w.raised):
         return T("Raw")
+    if any(e is x for x in w.probe_raised):
+        return T("RawProbe")         # the error of a follow-up probe left the method bare
     return T("Other", B(n))
 
 
